@@ -161,6 +161,12 @@ def generate(rng, tier):
         else:
             tok, kind = mutations(rng, alg, secret, now)
             out.append(mk(alg, secret, now, 'GET', b'Bearer ' + tok, kind=kind))
+        c = out[-1]['case']
+        if c['method'] == 'GET' and rng.random() < 0.25 and (c['issue'] is not None or (c['auth'] is not None and unhx(c['auth']).startswith(b'Bearer ') and unhx(c['auth'])[7:].isascii()
+                                                                                         and not any(ch in unhx(c['auth'])[7:] for ch in b'\r\n') and unhx(c['auth'])[7:].strip() == unhx(c['auth'])[7:] and unhx(c['auth'])[7:])):
+            # the configuration with `get_token_by`: the same token text travels in X-Api-Token; sometimes a token issued by the configuration sits in Authorization, where it must not be looked for
+            c['getter'] = 'x'; c['decoy'] = rng.random() < 0.4
+        elif c['method'] == 'GET' and c['auth'] is None and c['issue'] is None and rng.random() < 0.5: c['getter'] = 'x'; c['decoy'] = True      # no token where the configuration looks, a valid one elsewhere
     return out
 
 
